@@ -337,7 +337,7 @@ def c02(tier):
 NAMESETS = {"A": ["9.conf", "x.con", "10.conf"], "B": ["a.conf", ".conf", "B.conf"], "C": ["9.conf", "a.conf", ".h.conf"]}
 ENTRYNAMES = ["readDirsHistory", "readDirsHistoryWithCallback", "readDirs", "readDirsWithCallback", "readConfig", "readConfigWithCallback"]
 
-def d_inst(entry, layers, nameset, fullpat, suffix="conf", faults=0, timeout=150, keysel=None, failfile=-1, failkind=1, rootmode=False, confopt=False):
+def d_inst(entry, layers, nameset, fullpat, suffix="conf", faults=0, timeout=150, keysel=None, failfile=-1, failkind=1, rootmode=False, confopt=False, setconf=None):
     """fullpat: list per layer of [main present, dropin dir present, presence per candidate...]"""
     pattern = [row[2:] for row in fullpat]
     mainp = [row[0] for row in fullpat]; dirp = [row[1] for row in fullpat]
@@ -367,20 +367,23 @@ def d_inst(entry, layers, nameset, fullpat, suffix="conf", faults=0, timeout=150
         hdr += "#define ROOTMODE 1\n#define NPREDIRS %d\nstatic const char *PREDIRS[] = {%s};\nstatic const char *LAYERDIR[] = {%s};\n" % (len(pre), ",".join('"%s"' % x for x in pre), ",".join('"%s"' % x for x in ldirs))
     if confopt: hdr += "#define CONFOPT 1\n"
     mains = [d + "/c" + sufdot for d in ldirs]
+    bases = [d + "/c" for d in ldirs]
+    ddp = [(b + setconf) if setconf else (m + ".d") for b, m in zip(bases, mains)]
+    if setconf: hdr += '#define SETCONF "%s"\n' % setconf
     hdr += "static const char *MAINPATH[LAYERS] = {%s};\nstatic const char *DDPATH[LAYERS] = {%s};\nstatic const char *FPATH[LAYERS][NF] = {%s};\n" % (
-        ",".join('"%s"' % m for m in mains), ",".join('"%s.d"' % m for m in mains),
-        ",".join("{%s}" % ",".join('"%s.d/%s"' % (m, n) for n in names) for m in mains))
+        ",".join('"%s"' % m for m in mains), ",".join('"%s"' % x for x in ddp),
+        ",".join("{%s}" % ",".join('"%s/%s"' % (x, n) for n in names) for x in ddp))
     pat = "_".join("".join(str(b) for b in row) for row in fullpat)
     nfiles = layers * (nf + 1)
     d = {"STRCAP": 56 if confopt else 40, "VCAP": max(nfiles + 2, 6), "VFS_MAXNODES": layers * (nf + 3) + 6, "VFS_CONTENT": 10, "V_PATH_MAX": 48, "VFS_MAXEV": 48, "CALLOC_N": max(nfiles + 2, 6)}
-    name = "d-%s-L%d-%s-%s-suf%s%s" % (ENTRYNAMES[entry], layers, nameset, pat, ("NULL" if suffix is None else "empty" if suffix == "" else suffix.replace(".", "dot")), (("-fail%d%s" % (failfile, "xrpo"[failkind])) if faults else "") + ("-rootprefix" if rootmode else "") + ("-confdirs" if confopt else ""))
+    name = "d-%s-L%d-%s-%s-suf%s%s" % (ENTRYNAMES[entry], layers, nameset, pat, ("NULL" if suffix is None else "empty" if suffix == "" else suffix.replace(".", "dot")), (("-fail%d%s" % (failfile, "xrpo"[failkind])) if faults else "") + ("-rootprefix" if rootmode else "") + ("-confdirs" if confopt else "") + ("-setconfdirs" if setconf else ""))
     uw = lib_unwinds(nfiles * 2 + 2, 3, alloc=nfiles * 2 + 2) + [
         (r"readconfig\.c", r"for \(int i = parse_dirs_count", layers + 1), (r"readconfig\.c", r"i < parse_dirs_count", layers + 1), (r"readconfig\.c", r"i < conf_count", 2),
         (r"readconfig\.c", r"k < \*size-1", nfiles + 1), (r"mergefiles\.c", r"i < num_dirs", nf + 3), (r"mergefiles\.c", r"k < num_dirs", nf + 3),
         (r"mergefiles\.c", r"while \(config_dirs\[i\]", 3), (r"mergefiles\.c", r"while\(\*key_files\)", nfiles + 1), (r"mergefiles\.c", r"while \(\*double_key_files\)", nfiles + 1),
         (r"d_hist\.c", r"s < MAXFILES|s < nseq|t < nseq|i < nfi|l < nl|c < NF|oc < NF|a < NF|b >= 0|l >= 0", nfiles + 2),
         (r"vfs_cbmc\.c", r"i < vfs_n|t < vfs_n|s < 2|i < cnt|j >= 0|p >= 0", layers * (nf + 3) + 9), (r"libeconf\.c", r"strsep\(&in_entry", layers + 2), (r"libeconf\.c", r"strsep\(&in_opt", 3)]
-    return Instance(name, "d_hist.c", d, unwind=57 if confopt else 41, unwindset=uw, timeout=timeout, mem_gb=8, leak_check=True, gen_files={"layout.h": hdr},
+    return Instance(name, "d_hist.c", d, unwind=57 if confopt else 41, unwindset=uw, timeout=timeout, mem_gb=8, leak_check=not setconf, gen_files={"layout.h": hdr},
                     flags=["--max-field-sensitivity-array-size", "300"],
                     functions="econf_%s, readConfigWithCallback, readConfigHistoryWithCallback, traverse_conf_dirs, check_conf_dir, merge_econf_files, econf_mergeFiles (+ contract of read_file_with_callback)" % ENTRYNAMES[entry],
                     bounds="%d layers; concrete pattern per layer [main file: 0 none/1 with content/2 empty/3 link to /dev/null, drop-in dir exists, presence of each candidate of %s] = %s; every file defines one key (k1 or k2, concrete per instance) with a symbolic value; suffix argument %r; %s"
@@ -481,6 +484,9 @@ def c12(tier):
         pat = d_patterns(2, 3, 6, rng)[-1]
         for entry in (0, 2, 3, 5):
             insts.append(d_inst(entry, 2, "B", pat, suffix=suf))
+    # the process-wide drop-in directory list must reach every entry point
+    for entry in range(6):
+        insts.append(d_inst(entry, 2, "A", [[1, 1, 1, 0, 1], [0, 1, 1, 0, 1]], setconf=".dd"))
     return {"instances": insts, "assumptions": COMMON_ASSUME + D_ASSUME + ["agreement of the entry points is shown through the common reference: every entry point is compared with the same reference consulted sequence / reference fold on the same tree instance"],
             "explanation": "all six entry points on identical trees against one reference; history = consulted sequence with own path and content"}
 
